@@ -251,11 +251,12 @@ impl TypeCollector {
             .fields
             .iter()
             .map(|field| {
-                FieldContext::new(config).from_field_info(
-                    field,
-                    &struct_info.serde_rename_all,
-                    visitor,
-                )
+                let context = FieldContext::new(config);
+                if struct_info.is_enum {
+                    context.from_variant_info(field, &struct_info.serde_rename_all, visitor)
+                } else {
+                    context.from_field_info(field, &struct_info.serde_rename_all, visitor)
+                }
             })
             .collect()
     }
